@@ -117,7 +117,7 @@ Proof.
     destruct (Z.geb_spec (pos + (n - 1) * off) blen); [nia|].
     destruct (Z.geb_spec (i + 1) e); [lia|].
     fold (zrep b n).
-    apply Hcont; try reflexivity; try lia. rewrite zlen_zrep by lia. reflexivity.
+    apply Hcont; try reflexivity; try lia.
 Qed.
 
 (* The model decoder recovers a plane from the encoder's own segment (with or without its
@@ -141,6 +141,9 @@ Qed.
    below len(buffer): the model's scatter never drops a write and the Go code never indexes
    buffer[] out of range (start >= 0 is the caller's obligation; see seg_pos_nonneg in
    RleFrameProofs). *)
+Lemma Ok_inj : forall A (a b : A), Ok a = Ok b -> a = b.
+Proof. intros A a b H. inversion H. reflexivity. Qed.
+
 Lemma dec_loop_in_range : forall fuel rest i e pos off blen w,
   bytesP rest -> 0 <= off ->
   dec_loop fuel rest i e pos off blen = Ok w ->
@@ -159,9 +162,9 @@ Proof.
     assert (Hlen : zlen (firstn (Z.to_nat (cb + 1)) rest1) = cb + 1).
     { unfold zlen in *. rewrite firstn_length in *. unfold byteP in Hcb. lia. }
     destruct (i + 1 + (cb + 1) + 1 >=? e).
-    + inversion E; subst. right. rewrite Hlen. lia.
+    + apply Ok_inj in E; subst w. right. rewrite Hlen. lia.
     + destruct (dec_loop f (skipn (Z.to_nat (cb + 1)) rest1) (i + 1 + (cb + 1)) e (pos + (cb + 1) * off) off blen) as [w'| | |] eqn:E2;
-        cbn [obind] in E; try discriminate. inversion E; subst. clear E.
+        cbn [obind] in E; try discriminate. apply Ok_inj in E; subst w.
       apply IH in E2; [|apply bytesP_firstn_skipn; assumption|assumption].
       right. rewrite zlen_app, Hlen. destruct E2 as [->|E2]; [rewrite zlen_nil; lia|lia].
   - destruct (Z.geb_spec cb 129).
@@ -171,9 +174,9 @@ Proof.
       assert (Hlen : zlen (repeat b (Z.to_nat (257 - cb))) = 257 - cb).
       { unfold zlen. rewrite repeat_length. unfold byteP in Hcb. lia. }
       destruct (i + 1 + 1 + 1 >=? e).
-      * inversion E; subst. right. rewrite Hlen. lia.
+      * apply Ok_inj in E; subst w. right. rewrite Hlen. lia.
       * destruct (dec_loop f rest2 (i + 1 + 1) e (pos + (257 - cb) * off) off blen) as [w'| | |] eqn:E2;
-          cbn [obind] in E; try discriminate. inversion E; subst. clear E.
+          cbn [obind] in E; try discriminate. apply Ok_inj in E; subst w.
         inversion Hb1; subst.
         apply IH in E2; [|assumption|assumption].
         right. rewrite zlen_app, Hlen. destruct E2 as [->|E2]; [rewrite zlen_nil; lia|lia].
